@@ -4,15 +4,16 @@
   * `fw/face/stream-transport.go` `readTlvStream` (lines 11–71): fixed receive buffer of
     `recvBufSize = 32·MaxNDNPacketSize` bytes, write offset `recvOff`, parse offset `tlvOff`; every
     `Read` gets the free tail `recvBuf[recvOff:]`; after each read the inner loop parses T and L
-    from the unread region, delivers complete blocks, and the unread bytes are moved to the front
-    when fewer than `MaxNDNPacketSize` of them remain.
+    from the unread region (a length beyond the buffer capacity is an error), delivers complete
+    blocks, and the unread bytes are moved to the front when at most `MaxNDNPacketSize` of them
+    remain.
   * `std/engine/face/stream_face.go` `StreamFace.Run` (lines 25–72): reads T, L, then exactly L
     bytes through a `bufio.Reader`, re-encodes T and L in front of the value.
 
   The bytes in front of `tlvOff` are dead (never read again), so the state keeps `tlvOff` and the
   unread bytes `recvBuf[tlvOff:recvOff]`; `recvOff = tlvOff + unread.length`.
-  Go `int` arithmetic (`int(len)` of a 64-bit length) is modelled exactly; its failure modes are
-  explicit outcomes (`panic`, `hang`), never totalised away.  Core Lean only.
+  Go `int` arithmetic (`int(len)` of a 64-bit length) is modelled exactly where it can go wrong
+  (application side: explicit `panic` outcome), never totalised away.  Core Lean only.
 -/
 import NdnVerif.Base.Num
 import NdnVerif.Gen.C11Consts
@@ -41,12 +42,15 @@ def tlvSize (typ len : Nat) : Int :=
 inductive Status
   | more      -- `break`: incomplete block, wait for the next read
   | tooMuch   -- `return errors.New("received too much data without valid TLV block")`
-  | panic     -- slice bounds out of range (negative `tlvSize`)
-  | hang      -- `tlvSize = 0`: the inner loop delivers empty frames forever
+  | tooBig    -- `return errors.New("received TLV block larger than the receive buffer")`
+  | panic     -- Go runtime panic (application side only: `make` with a negative size)
   deriving DecidableEq, Repr
 
 /-- The inner `for` loop of `readTlvStream` on the unread region `u = recvBuf[tlvOff:recvOff]`:
-    delivered frames, the bytes still unread afterwards, and how the loop ended. -/
+    delivered frames, the bytes still unread afterwards, and how the loop ended.
+    After the guard `uint64(len) > uint64(cap(recvBuf))` the Go `int` arithmetic
+    `typ.EncodingLength() + len.EncodingLength() + int(len)` is exact (`tlvSize_exact`), so the size
+    is the natural number `tlLen typ + tlLen len + len`. -/
 def parseLoop (u : Bytes) : List Bytes × Bytes × Status :=
   match h1 : decTL u with
   | none => ([], u, .more)                       -- ReadTLNum(typ) failed
@@ -54,18 +58,19 @@ def parseLoop (u : Bytes) : List Bytes × Bytes × Status :=
     match decTL r1 with
     | none => ([], u, .more)                     -- ReadTLNum(len) failed
     | some (len, _) =>
-      let sz := tlvSize typ len
-      if (u.length : Int) ≥ sz then              -- recvOff-tlvOff >= tlvSize
-        if sz < 0 then ([], u, .panic)           -- recvBuf[tlvOff : tlvOff+tlvSize], high < low
-        else if sz.toNat = 0 then ([], u, .hang)
-        else
-          let r := parseLoop (u.drop sz.toNat)
-          (u.take sz.toNat :: r.1, r.2.1, r.2.2)
-      else if u.length > maxPkt then ([], u, .tooMuch)
-      else ([], u, .more)
+      if len > cap then ([], u, .tooBig)         -- can never fit in the receive buffer
+      else
+        let sz := tlLen typ + tlLen len + len
+        if u.length ≥ sz then                    -- recvOff-tlvOff >= tlvSize
+          let r := parseLoop (u.drop sz)
+          (u.take sz :: r.1, r.2.1, r.2.2)
+        else if u.length > maxPkt then ([], u, .tooMuch)
+        else ([], u, .more)
 termination_by u.length
 decreasing_by
   have := decTL_rest_lt h1
+  have : 1 ≤ tlLen typ := by unfold tlLen; repeat' split
+                             all_goals omega
   simp only [List.length_drop]
   omega
 
@@ -82,23 +87,23 @@ def St.free (s : St) : Nat := cap - s.recvOff
 def init : St := ⟨0, []⟩
 
 /-- one outer iteration after `Read` returned the bytes `c` (`c.length ≤ free`): parse/deliver,
-    then compact when fewer than `maxPkt` unread bytes remain -/
+    then compact when at most `maxPkt` unread bytes remain -/
 def onRead (s : St) (c : Bytes) : St × List Bytes × Status :=
   let u := s.unread ++ c
   let r := parseLoop u
   let rest := r.2.1
-  let s' : St := if rest.length < maxPkt then ⟨0, rest⟩ else ⟨s.tlvOff + (u.length - rest.length), rest⟩
+  let s' : St := if rest.length ≤ maxPkt then ⟨0, rest⟩ else ⟨s.tlvOff + (u.length - rest.length), rest⟩
   (s', r.1, r.2.2)
 
 /-- how a whole run ended -/
 inductive Outcome
   | eof       -- the reader reported io.EOF, `readTlvStream` returned nil
   | stall     -- no free space left: `Read` gets an empty slice and can never make progress
-  | tooMuch | panic | hang
+  | tooMuch | tooBig | panic
   deriving DecidableEq, Repr
 
 def Status.toOutcome : Status → Outcome
-  | .more => .eof | .tooMuch => .tooMuch | .panic => .panic | .hang => .hang
+  | .more => .eof | .tooMuch => .tooMuch | .tooBig => .tooBig | .panic => .panic
 
 /-- The scripted reader offers the chunks one by one; a `Read` returns
     `min(chunk, free)` bytes and the remainder of the chunk stays pending (reads are bounded by the
